@@ -207,7 +207,23 @@ def _worker(masks):
                     bad.append((mask, clause, detail + extra, wit[0] if wit else None))
         if not judged:
             bad.append((mask, "engine", "no path of the mask had a witness", None))
+    from pvx.npproxy import NARROW_DTYPES
+    if NARROW_DTYPES and masks:
+        # (worker processes: the allocation log does not reach the parent's harness by itself)
+        bad.append((masks[0], "precision", "intermediate results stored in a floating type narrower than float64: %s"
+                    % ", ".join("%s (%s)" % x for x in NARROW_DTYPES[:6]), None))
     return n_ob, bad
+
+
+def _native_precision(py):
+    """replay: the stacked and the single form of output_matrix on the same float64 readings"""
+    IS = py.inertial_sensor
+    m = IS.EstimationModel(bias_sd=0.1, scale_misal_sd=np.full((3, 3), 0.01))
+    r = np.array([[0.1234567890123, -1.987654321098, 9.80665123456789], [1e-3, 2e-3, -3e-3]])
+    Hs = np.asarray(m.output_matrix(r))
+    worst = max(float(np.max(np.abs(Hs[k] - np.asarray(m.output_matrix(r[k]))))) for k in range(len(r)))
+    return dict(reproduced=bool(worst > 0 or Hs.dtype != np.float64), readings=r.tolist(), stacked_dtype=str(Hs.dtype),
+                max_abs_difference_stacked_vs_single_form=worst)
 
 
 def layout_subset(ctx, py, prefix):
@@ -270,6 +286,9 @@ def run(ctx):
         by_clause.setdefault(clause, []).append((mask, detail, wit))
     clauses = ["layout.states", "layout.P", "layout.H", "layout.G", "layout.J", "layout.F", "layout.q_v", "layout.scale_misal_flag",
                "names_match_simulator", "output_matrix", "output_matrix.stacked", "accumulate"]
+    if by_clause.get("precision"):
+        ctx.ob("C14.precision.float64_intermediates", "c", False, "symbolic-execution(allocation log)", 0.0, by_clause["precision"][0][1],
+               cex=dict(allocations=by_clause["precision"][0][1]), native=_native_precision(py))
     for mask, detail, wit in by_clause.get("engine", [])[:3]:
         ctx.add(Ob("C14.engine.mask", "guard", "error", "python", 0.0, "mask %s: %s" % (mask, detail)))
     for cl in clauses:
